@@ -39,6 +39,8 @@ CONSTANTS W,            \* workers
           MaxTries, MaxConc, RerunSet, StopSet,
           MaxBounce,    \* exploration bound: back-offs per worker
           DryRun,       \* dry run: nothing is executed or cleaned
+          Spawner, Swarm, \* [W -> "lxc" | "remote" | ...], [W -> swarm id]
+          PoolScope,      \* enabled reuse scopes, a subset of {"own", "swarm", "cluster", "shared"} containing own and shared
           OwnUnexplored, \* the cleanup of a node is also postponed while THIS worker may still unroll a flat test (fix 'postpone the
                          \* cleanup ... own copy'); FALSE = the guard looks only at flat tests nobody has unrolled yet
           Prio, UsePrio,\* static last tie-break of the pick order (prefix priority); only fixed for eagerly parsed graphs
@@ -76,6 +78,11 @@ Pop(s) == SubSeq(s, 1, Len(s) - 1)
 RECURSIVE SeqSet(_)
 SeqSet(q) == IF q = <<>> THEN {} ELSE {Head(q)} \cup SeqSet(Tail(q))
 
+\* ---- reuse scope (is_started / is_finished / shared_filtered_results): lxc workers without the swarm scope keep everything
+\* to themselves, remote workers without the cluster scope share within their swarm, otherwise the whole run shares
+Peers(w) == IF Spawner[w] = "lxc" /\ "swarm" \notin PoolScope THEN {w}
+            ELSE IF Spawner[w] = "remote" /\ "cluster" \notin PoolScope THEN {v \in W : Swarm[v] = Swarm[w]}
+            ELSE W
 \* ---- readiness, occupation, pick order (TestNode.is_setup_ready / is_cleanup_ready / is_occupied / pick_*)
 Relevant(t, w) == t \in Flat \/ exists[t][w]
 \* the edge between a flat test and its composite copy exists for a worker only once that worker unrolled the flat test
@@ -84,7 +91,7 @@ PRel(p, w) == IF p \in FlatLeaves THEN unrolled[p][w] ELSE Relevant(p, w)
 CRel(t, c, w) == IF t \in FlatLeaves THEN unrolled[t][w] /\ Relevant(c, w) ELSE Relevant(c, w)
 SetupReady(t, w) == \A p \in Setup[t] : PRel(p, w) => ds[t][p][w] > 0
 CleanupReady(t, w) == \A c \in Children[t] : CRel(t, c, w) => dc[t][c][w] > 0
-Occupied(t, w) == t \notin Flat /\ Cardinality({v \in W : started[t][v]}) >= MaxConc
+Occupied(t, w) == t \notin Flat /\ Cardinality({v \in Peers(w) : started[t][v]}) >= MaxConc
 FlatFlag(t) == IF t \in Flat THEN 0 ELSE 1
 Less(k1, k2) == k1[1] < k2[1] \/ (k1[1] = k2[1] /\ k1[2] < k2[2])
 ParentCands(t, w) == {p \in Setup[t] : PRel(p, w) /\ ds[t][p][w] = 0}
@@ -105,44 +112,51 @@ CanExpand(w) == /\ Len(path[w]) > 1
                      nx \in FlatLeaves /\ ~unrolled[nx][w] /\ (Unexplored # {} \/ ShouldParse(nx, w))
 
 \* ---- run decision (default_run_decision + should_rerun), explicit in what it reads
-AllStat(res, t) == UNION {SeqSet(res[t][v]) : v \in W}
-NumRes(res, t) == LET f == [v \in W |-> Len(res[t][v])] IN SumSet(f, W)
-ShouldRerun(res, t) == /\ AllStat(res, t) \subseteq RerunSet
-                       /\ StopSet \cap AllStat(res, t) = {}
-                       /\ MaxTries # 1 /\ MaxTries - NumRes(res, t) > 0
+\* results as the deciding worker sees them: of its reuse scope for a test with states, all of them for a stateless one
+Seen(t, w) == IF t \in Stateful THEN Peers(w) ELSE W
+AllStat(res, t, w) == UNION {SeqSet(res[t][v]) : v \in Seen(t, w)}
+NumRes(res, t, w) == LET f == [v \in W |-> Len(res[t][v])] IN SumSet(f, Seen(t, w))
+ShouldRerun(res, t, w) == /\ AllStat(res, t, w) \subseteq RerunSet
+                          /\ StopSet \cap AllStat(res, t, w) = {}
+                          /\ MaxTries # 1 /\ MaxTries - NumRes(res, t, w) > 0
 Present(pl, t, w) == Sets[t] \subseteq (pl[w] \cup pl["shared"])
 \* <<run, new value of rerunOff>>
 Decide(res, fin, pl, off, t, w) ==
     IF t \in Flat \/ DryRun THEN <<FALSE, off>>
     ELSE IF t \notin Stateful
-         THEN <<NumRes(res, t) = 0 \/ (~off /\ ShouldRerun(res, t)), off>>
-         ELSE LET scan == fin[t] = {}
+         THEN <<NumRes(res, t, w) = 0 \/ (~off /\ ShouldRerun(res, t, w)), off>>
+         ELSE LET scan == fin[t] \cap Peers(w) = {}
                   fromscan == scan /\ ~Present(pl, t, w)
-                  off2 == off \/ (NumRes(res, t) = 0 /\ ~fromscan)
-              IN <<fromscan \/ (~off2 /\ ShouldRerun(res, t)), off2>>
+                  off2 == off \/ (NumRes(res, t, w) = 0 /\ ~fromscan)
+              IN <<fromscan \/ (~off2 /\ ShouldRerun(res, t, w)), off2>>
 MustRun(t, w) == Decide(results, finished, pool, rerunOff[t][w], t, w)[1]
 OffAfter(t, w) == Decide(results, finished, pool, rerunOff[t][w], t, w)[2]
 \* ---- clean decision (default_clean_decision) of a reversal by w: TRUE iff the states are removed
+\* (a worker of a named swarm only looks at the involved workers of its own swarm; "all finished" is scope relative)
+InvolvedFor(t, w) == {pv \in Involved(t) : Swarm[w] = "localhost" \/ Swarm[pv] = Swarm[w]}
+FinishedAll(t, w) == IF Peers(w) = {w} /\ Spawner[w] = "lxc" /\ "swarm" \notin PoolScope THEN w \in finished[t]
+                     ELSE finished[t] \cap Peers(w) = Involved(t) \cap Peers(w)
 WillUnset(t, w) == /\ ~DryRun /\ t \notin Flat /\ t \in Removable /\ t \in Stateful
-                   /\ \A pv \in Involved(t) : CleanupReady(t, pv) /\ "UNKNOWN" \notin SeqSet(results[t][pv])
-                   /\ finished[t] = Involved(t)
+                   /\ \A pv \in InvolvedFor(t, w) : CleanupReady(t, pv) /\ "UNKNOWN" \notin SeqSet(results[t][pv])
+                   /\ FinishedAll(t, w)
 
 \* ---- the properties, evaluated where the code acts (recorded in `bad`)
 PassedBy(p) == {v \in W : \E k \in 1..Len(results[p][v]) : results[p][v][k] \in OKStatus}
 FailedThisRun(p) == p \in preFailed \/ \E v \in W : \E k \in 1..Len(results[p][v]) : results[p][v][k] \notin (OKStatus \cup {"UNKNOWN"})
 \* the sources pull_locations names: the shared pool and the workers with a passing result of the producer
-Avail(w, s) == s \in pool[w] \/ s \in pool["shared"] \/ \E v \in PassedBy(Producer(s)) : s \in pool[v]
+SrcScope(w, v) == IF v = w THEN "own" ELSE IF Swarm[v] = Swarm[w] THEN "swarm" ELSE "cluster"
+Avail(w, s) == s \in pool[w] \/ s \in pool["shared"] \/ \E v \in PassedBy(Producer(s)) : SrcScope(w, v) \in PoolScope /\ s \in pool[v]
 StartViolations(t, w) ==
     {<<"C01", t, w, s>> : s \in {x \in Gets[t] : ~Avail(w, x) /\ ~FailedThisRun(Producer(x))}}
-    \cup (IF NumRes(results, t) >= (IF MaxTries > 1 THEN MaxTries ELSE 1) THEN {<<"C03", t, w, "budget">>} ELSE {})
-    \cup (IF Cardinality({v \in W \ {w} : started[t][v]}) >= (IF MaxConc > 1 THEN MaxConc ELSE 1) THEN {<<"C04", t, w, "concurrent">>} ELSE {})
-    \cup (IF /\ AllStat(results, t) \ {"UNKNOWN"} # {}
-             /\ ~(AllStat(results, t) \ {"UNKNOWN"} \subseteq RerunSet /\ StopSet \cap AllStat(results, t) = {} /\ MaxTries > 1)
+    \cup (IF NumRes(results, t, w) >= (IF MaxTries > 1 THEN MaxTries ELSE 1) THEN {<<"C03", t, w, "budget">>} ELSE {})
+    \cup (IF Cardinality({v \in Peers(w) \ {w} : started[t][v]}) >= (IF MaxConc > 1 THEN MaxConc ELSE 1) THEN {<<"C04", t, w, "concurrent">>} ELSE {})
+    \cup (IF /\ AllStat(results, t, w) \ {"UNKNOWN"} # {}
+             /\ ~(AllStat(results, t, w) \ {"UNKNOWN"} \subseteq RerunSet /\ StopSet \cap AllStat(results, t, w) = {} /\ MaxTries > 1)
           THEN {<<"C10", t, w, "retry-rule">>} ELSE {})
 Dependants(s) == {d \in Tests : s \in Gets[d]}
 UnsetViolations(t, w) ==
     UNION {{<<"C05", t, w, s, "dependant-running">> : d \in {x \in Dependants(s) : \E v \in W : started[x][v]}}
-           \cup {<<"C05", t, w, s, "dependant-pending">> : d \in {x \in Dependants(s) : NumRes(results, x) = 0 /\ ~(Present(pool, x, w) /\ x \in Stateful)
+           \cup {<<"C05", t, w, s, "dependant-pending">> : d \in {x \in Dependants(s) : NumRes(results, x, w) = 0 /\ ~(Present(pool, x, w) /\ x \in Stateful)
                                                                                       /\ \E v \in W : exists[x][v]}}
            : s \in UnsetSets[t]}
 
@@ -380,7 +394,7 @@ NoStall == (\A w \in W : pc[w] = "done") \/ ENABLED Next
 AllDone == \A w \in W : pc[w] = "done"
 \* at the end every selected compatible test has a definite result or was found reusable
 Completed == AllDone => \A f \in FlatLeaves : \A t \in {x \in Closure[f] : f \in Setup[x]} :
-                            (NumRes(results, t) > 0 /\ "UNKNOWN" \notin AllStat(results, t)) \/ (t \in Stateful /\ \E w \in W : Present(pool, t, w))
+                            \E w \in W : (NumRes(results, t, w) > 0 /\ "UNKNOWN" \notin AllStat(results, t, w)) \/ (t \in Stateful /\ Present(pool, t, w))
 BounceBound == \A w \in W : nb[w] <= MaxBounce
 \* ---- liveness (C02): no coroutine keeps the event loop for ever. Everything a worker does between two awaits is one
 \* uninterrupted run of steps with turn = w; a cycle among such steps would be an await-free endless loop that hangs all
